@@ -11,6 +11,9 @@ Methods == {"POST", "GET"}
 LenCls  == {"ok", "none", "big"}            \* Content-Length: fine, absent, > 128 KiB
 Bodies  == {"valid", "notder", "trailing"}
 Realms  == {"default", "configured", "unknown"}
+\* what the same proxy served right before this request: nothing, a request for ANOTHER configured realm (which has a KDC
+\* of its own), a request for an unknown realm.  No action below reads it: a request is routed by its own content.
+After   == {"nothing", "other-realm", "unknown-realm"}
 Behaviours == {"reply", "partial", "close", "silent", "refuse"}
 \* size of the embedded Kerberos message: nothing, shorter than the 4-byte length prefix a datagram KDC
 \* request must exceed, exactly 4, fits a datagram, larger than a datagram, just under the 128 KiB limit.
@@ -25,15 +28,17 @@ Validate(method, len, body) ==
   ELSE IF body # "valid" THEN 400
   ELSE 0
 
-VARIABLES req,    \* [method, len, body, realm]
+VARIABLES req,    \* [method, len, body, realm, size, after]
+          foreign,  \* what the KDC of the other realm received of THIS request: "nothing" | "message"
           beh,    \* KDC -> behaviour
           got,    \* KDC -> what it received: "nothing" | "message" | "other"
           answered, \* KDCs whose complete reply has arrived at the proxy, in order of arrival
           clock, resp  \* resp: [status, reply] ; status 0 = not answered yet
-vars == <<req, beh, got, answered, clock, resp>>
+vars == <<req, foreign, beh, got, answered, clock, resp>>
 
 NoResp == [status |-> 0, reply |-> "none"]
-Init == /\ req \in [method : Methods, len : LenCls, body : Bodies, realm : Realms, size : SizeCls]
+Init == /\ req \in [method : Methods, len : LenCls, body : Bodies, realm : Realms, size : SizeCls, after : After]
+        /\ foreign = "nothing"
         /\ beh \in [KDCs -> Behaviours]
         /\ got = [k \in KDCs |-> "nothing"] /\ answered = <<>> /\ clock = 0 /\ resp = NoResp
 
@@ -44,27 +49,27 @@ Known == req.realm \in {"default", "configured"}
 
 Reject == /\ resp = NoResp /\ ~Acceptable
           /\ resp' = [status |-> Validate(req.method, req.len, req.body), reply |-> "none"]
-          /\ UNCHANGED <<req, beh, got, answered, clock>>
+          /\ UNCHANGED <<req, foreign, beh, got, answered, clock>>
 UnknownRealm == /\ resp = NoResp /\ Acceptable /\ ~Known
                 /\ resp' = [status |-> 503, reply |-> "none"]
-                /\ UNCHANGED <<req, beh, got, answered, clock>>
+                /\ UNCHANGED <<req, foreign, beh, got, answered, clock>>
 \* the embedded message goes to KDC k exactly as embedded
 Send(k) == /\ resp = NoResp /\ Acceptable /\ Known /\ got[k] = "nothing" /\ beh[k] # "refuse"
            /\ got' = [got EXCEPT ![k] = "message"]
-           /\ UNCHANGED <<req, beh, answered, clock, resp>>
+           /\ UNCHANGED <<req, foreign, beh, answered, clock, resp>>
 KdcAnswers(k) == /\ got[k] = "message" /\ beh[k] = "reply" /\ Framed(req.size) /\ k \notin {answered[i] : i \in 1..Len(answered)}
                  /\ answered' = Append(answered, k)
-                 /\ UNCHANGED <<req, beh, got, clock, resp>>
-Tick == /\ resp = NoResp /\ clock < Deadline /\ clock' = clock + 1 /\ UNCHANGED <<req, beh, got, answered, resp>>
+                 /\ UNCHANGED <<req, foreign, beh, got, clock, resp>>
+Tick == /\ resp = NoResp /\ clock < Deadline /\ clock' = clock + 1 /\ UNCHANGED <<req, foreign, beh, got, answered, resp>>
 \* first complete reply wins
 Respond == /\ resp = NoResp /\ answered # <<>>
            /\ resp' = [status |-> 200, reply |-> answered[1]]
-           /\ UNCHANGED <<req, beh, got, answered, clock>>
+           /\ UNCHANGED <<req, foreign, beh, got, answered, clock>>
 \* nobody answered in time (or nobody could be contacted)
 GiveUp == /\ resp = NoResp /\ Acceptable /\ Known /\ answered = <<>>
           /\ (clock = Deadline \/ \A k \in KDCs : beh[k] \in {"refuse", "close", "partial"} /\ (beh[k] = "refuse" \/ got[k] = "message"))
           /\ resp' = [status |-> 503, reply |-> "none"]
-          /\ UNCHANGED <<req, beh, got, answered, clock>>
+          /\ UNCHANGED <<req, foreign, beh, got, answered, clock>>
 
 Next == Reject \/ UnknownRealm \/ (\E k \in KDCs : Send(k) \/ KdcAnswers(k)) \/ Tick \/ Respond \/ GiveUp
 Stutter == UNCHANGED vars
@@ -73,6 +78,7 @@ Spec == Init /\ [][Next]_vars /\ WF_vars(Reject) /\ WF_vars(UnknownRealm) /\ WF_
 \* C20
 RejectedUntouched == (~Acceptable) => (\A k \in KDCs : got[k] = "nothing") /\ resp.status \in {0, 405, 411, 413, 400}
 OnlyTheMessageIsSent == \A k \in KDCs : got[k] \in {"nothing", "message"}
+OnlyToTheRealmsKdcs == foreign = "nothing"
 ReplyIsAKdcReply == resp.status = 200 => (resp.reply \in KDCs /\ beh[resp.reply] = "reply" /\ got[resp.reply] = "message")
 SuccessOnlyWhenAnswered == resp.status = 200 => answered # <<>> /\ resp.reply = answered[1]
 AlwaysAnswers == <>(resp.status # 0)
